@@ -76,10 +76,11 @@ package service
 //@ func (*PushPullHandler).evaluatePushPullCase
 //@   mode wrap
 //@   props C13 C17 C16
-//@   requires handlerWF(its) && its.datatypeDoc == nil
+//@   requires handlerWF(its) && its.datatypeDoc == nil && (its.gotPushPullPack.CheckPoint != nil ==> allocated(its.gotPushPullPack.CheckPoint))
 //@   ensures[error]          (result1 != nil) == (result0 == caseError)
 //@   ensures[nothing]        (result0 == caseMatchNothing) == (result1 == nil && its.datatypeDoc == nil)
 //@   ensures[doc-wf]         its.datatypeDoc != nil ==> mongodb.docWF(its.datatypeDoc)
+//@   ensures[doc-sep]        its.datatypeDoc != nil ==> mongodb.docSep(its.datatypeDoc, its.gotPushPullPack.CheckPoint)
 //@   ensures[by-key]         result0 == caseMatchKeyNotType || result0 == caseAllMatchedSubscribed || result0 == caseAllMatchedNotSubscribed || result0 == caseAllMatchedNotVisible ==> its.datatypeDoc != nil && its.datatypeDoc.Key == its.gotPushPullPack.Key && its.datatypeDoc.CollectionNum == its.collectionDoc.Num
 //@   ensures[type-differs]   result0 == caseMatchKeyNotType ==> its.datatypeDoc.Type != model.dtTypeName(its.gotPushPullPack.Type)
 //@   ensures[type-matches]   result0 == caseAllMatchedSubscribed || result0 == caseAllMatchedNotSubscribed || result0 == caseAllMatchedNotVisible ==> its.datatypeDoc.Type == model.dtTypeName(its.gotPushPullPack.Type)
@@ -94,6 +95,9 @@ package service
 //@   mode wrap
 //@   props C13 C16
 //@   requires handlerWF(its) && its.datatypeDoc != nil && mongodb.docWF(its.datatypeDoc)
+//@   requires[sep] mongodb.docSep(its.datatypeDoc, its.gotPushPullPack.CheckPoint) && (its.gotPushPullPack.CheckPoint != nil ==> allocated(its.gotPushPullPack.CheckPoint))
+//@   ensures[own-checkpoint-object] its.currentCP != its.gotPushPullPack.CheckPoint && mongodb.docSep(its.datatypeDoc, its.gotPushPullPack.CheckPoint)
+//@   ensures[request-untouched] its.gotPushPullPack.CheckPoint != nil ==> its.gotPushPullPack.CheckPoint.Sseq == old(its.gotPushPullPack.CheckPoint.Sseq) && its.gotPushPullPack.CheckPoint.Cseq == old(its.gotPushPullPack.CheckPoint.Cseq)
 //@   ensures[never-fails] result == nil
 //@   ensures[cp-set]      its.currentCP != nil
 //@   ensures[initial-set] its.initialCP != nil
@@ -103,3 +107,94 @@ package service
 //@   ensures[new-client-starts-at-zero] old(its.datatypeDoc.GetClientInDatatypeDoc(its.CUID, its.isReadOnly)) == nil ==> its.currentCP.Sseq == 0 && its.currentCP.Cseq == 0
 //@   ensures[doc-kept] its.datatypeDoc == old(its.datatypeDoc) && mongodb.docWF(its.datatypeDoc)
 //@   modifies PushPullHandler.subClientDoc, PushPullHandler.currentCP, PushPullHandler.initialCP, map[string]*schema.SubscribedClientDoc, schema.SubscribedClientDoc.*, model.CheckPoint.*
+
+// ---------------------------------------------------------------------------------------
+// the request path: validate, initialise, lock, reply exactly once (C12, C16, C18)
+// ---------------------------------------------------------------------------------------
+
+//@ immutable PushPullHandler.lock
+
+//@ func (*PushPullHandler).validatePushPullPack
+//@   mode wrap
+//@   props C16
+//@   requires handlerWF(its)
+//@   ensures[readonly-cannot-create] its.isReadOnly && its.gotOption.HasCreateBit() ==> result != nil
+//@   ensures[readonly-cannot-push]   its.isReadOnly && len(its.gotPushPullPack.Operations) > 0 ==> result != nil
+//@   ensures[otherwise-accepted]     !its.isReadOnly ==> result == nil
+//@   modifies errors.singleOrdaError.Code
+
+//@ func (*PushPullHandler).initialize
+//@   mode wrap
+//@   props C16
+//@   requires handlerWF(its) && its.gotPushPullPack.CheckPoint != nil
+//@   ensures[reply-prepared] result == nil && its.retCh == retCh && its.resPushPullPack != nil && fresh(its.resPushPullPack) && its.resPushPullPack.CheckPoint != nil
+//@   ensures[reply-names-the-datatype] its.resPushPullPack.Key == its.gotPushPullPack.Key && its.resPushPullPack.DUID == its.gotPushPullPack.DUID && its.resPushPullPack.Option == 0 && len(its.resPushPullPack.Operations) == 0
+//@   modifies PushPullHandler.retCh, PushPullHandler.resPushPullPack, model.PushPullPack.*, model.CheckPoint.*
+
+// The lock name identifies (collection, key): different datatypes never share a lock.
+//@ func (*PushPullHandler).getLockKey
+//@   mode math
+//@   props C12 C13
+//@   requires its.collectionDoc != nil
+//@   ensures[names-collection-and-key] result == strcat("PP:", dec(its.collectionDoc.Num), ":", its.Key)
+//@   modifies nothing
+
+// finalize: replies exactly once, releases the lock it holds, announces a committed push and
+// nothing else, and turns an error into an error reply carrying one error operation.
+//@ func (*PushPullHandler).finalize
+//@   mode wrap
+//@   props C12 C16 C18
+//@   requires handlerWF(its) && its.lock != nil
+//@   requires[reply-prepared] its.resPushPullPack != nil && its.retCh != nil
+//@   requires[lock-held]      sel(G.held, its.lock)
+//@   requires[success-state]  its.err == nil ==> its.initialCP != nil && its.currentCP != nil
+//@   ensures[exactly-one-reply] sent(its.retCh) == old(sent(its.retCh)) + 1
+//@   ensures[lock-released]   !sel(G.held, its.lock)
+//@   ensures[announce-iff-stored] spawned("service.(*PushPullHandler).finalize$1") == old(spawned("service.(*PushPullHandler).finalize$1")) + (its.err == nil && len(its.pushingOperations) > 0 ? 1 : 0)
+//@   ensures[error-reply]     its.err != nil ==> its.resPushPullPack.GetPushPullPackOption().HasErrorBit() && len(its.resPushPullPack.Operations) == old(len(its.resPushPullPack.Operations)) + 1
+//@   ensures[success-reply-untouched] its.err == nil ==> its.resPushPullPack.Option == old(its.resPushPullPack.Option) && len(its.resPushPullPack.Operations) == old(len(its.resPushPullPack.Operations))
+//@   modifies G:held, G:chan.sent, G:spawned:service.(*PushPullHandler).finalize$1, G:lastMarshaled, model.PushPullPack.Option, model.PushPullPack.Operations, alloc, @operations.ModelToOperation, model.Operation.*, model.OperationID.*
+
+//@ func (*PushPullHandler).createDatatype
+//@   mode wrap
+//@   props C13
+//@   requires handlerWF(its) && its.resPushPullPack != nil && (its.gotPushPullPack.CheckPoint != nil ==> allocated(its.gotPushPullPack.CheckPoint))
+//@   ensures[own-checkpoint-object] its.currentCP != its.gotPushPullPack.CheckPoint && mongodb.docSep(its.datatypeDoc, its.gotPushPullPack.CheckPoint)
+//@   ensures[option-untouched] deref(its.gotOption) == old(deref(its.gotOption))
+//@   ensures[new-doc]  result == nil && its.datatypeDoc != nil && fresh(its.datatypeDoc) && its.datatypeDoc.DUID == its.DUID && its.datatypeDoc.Key == its.Key && its.datatypeDoc.CollectionNum == its.collectionDoc.Num && its.datatypeDoc.Type == model.dtTypeName(its.gotPushPullPack.Type) && its.datatypeDoc.Sseq.End == 0
+//@   ensures[reply-says-created] optBit(its.resPushPullPack.Option, 1) && !optBit(its.resPushPullPack.Option, 32)
+//@   ensures[ready]    its.currentCP != nil && its.initialCP != nil && its.currentCP.Sseq == 0 && its.currentCP.Cseq == 0 && mongodb.docWF(its.datatypeDoc)
+//@   modifies PushPullHandler.datatypeDoc, PushPullHandler.subClientDoc, PushPullHandler.currentCP, PushPullHandler.initialCP, model.PushPullPack.Option, map[string]*schema.SubscribedClientDoc, schema.SubscribedClientDoc.*, model.CheckPoint.*, schema.DatatypeDoc.*, *model.PushPullPackOption
+
+//@ func (*PushPullHandler).subscribeDatatype
+//@   mode wrap
+//@   props C13
+//@   requires handlerWF(its) && its.resPushPullPack != nil && its.datatypeDoc != nil && mongodb.docWF(its.datatypeDoc)
+//@   requires[sep] mongodb.docSep(its.datatypeDoc, its.gotPushPullPack.CheckPoint) && (its.gotPushPullPack.CheckPoint != nil ==> allocated(its.gotPushPullPack.CheckPoint))
+//@   ensures[own-checkpoint-object] its.currentCP != its.gotPushPullPack.CheckPoint
+//@   ensures[option-untouched] deref(its.gotOption) == old(deref(its.gotOption))
+//@   ensures[adopts-stored-id]   result == nil && its.DUID == its.datatypeDoc.DUID && its.resPushPullPack.DUID == its.datatypeDoc.DUID
+//@   ensures[pushed-ops-dropped] len(its.gotPushPullPack.Operations) == 0
+//@   ensures[reply-says-subscribed] optBit(its.resPushPullPack.Option, 2) && !optBit(its.resPushPullPack.Option, 32)
+//@   ensures[ready]    its.currentCP != nil && its.initialCP != nil && its.datatypeDoc == old(its.datatypeDoc) && mongodb.docWF(its.datatypeDoc)
+//@   ensures[new-subscriber-starts-at-zero] old(its.datatypeDoc.GetClientInDatatypeDoc(its.CUID, its.isReadOnly)) == nil ==> its.currentCP.Sseq == 0 && its.currentCP.Cseq == 0
+//@   modifies PushPullHandler.DUID, PushPullHandler.subClientDoc, PushPullHandler.currentCP, PushPullHandler.initialCP, model.PushPullPack.Option, model.PushPullPack.DUID, model.PushPullPack.Operations, map[string]*schema.SubscribedClientDoc, schema.SubscribedClientDoc.*, model.CheckPoint.*, *model.PushPullPackOption
+
+// processSubscribeOrCreate: the refusal rows are taken from the property text (C13).
+//@ func (*PushPullHandler).processSubscribeOrCreate
+//@   mode wrap
+//@   props C13 C16
+//@   requires handlerWF(its) && its.resPushPullPack != nil && code != caseError
+//@   requires[sep] (its.datatypeDoc != nil ==> mongodb.docSep(its.datatypeDoc, its.gotPushPullPack.CheckPoint)) && (its.gotPushPullPack.CheckPoint != nil ==> allocated(its.gotPushPullPack.CheckPoint))
+//@   requires[case-facts] (code == caseMatchNothing) == (its.datatypeDoc == nil) && (its.datatypeDoc != nil ==> mongodb.docWF(its.datatypeDoc))
+//@   requires[subscribed-fact] (code == caseAllMatchedSubscribed ==> its.datatypeDoc.GetClientInDatatypeDoc(its.CUID, its.isReadOnly) != nil) && (code == caseAllMatchedNotSubscribed ==> its.datatypeDoc.GetClientInDatatypeDoc(its.CUID, its.isReadOnly) == nil)
+//@   ensures[type-mismatch-refused]      code == caseMatchKeyNotType ==> result != nil
+//@   ensures[create-existing-refused]    old(optCreate(its)) && !old(optSubscribe(its)) && (code == caseAllMatchedNotSubscribed || code == caseAllMatchedNotVisible) ==> result != nil
+//@   ensures[duid-of-other-key-refused]  (old(optCreate(its)) || old(optSubscribe(its))) && code == caseUsedDUID ==> result != nil
+//@   ensures[subscribe-missing-refused]  old(optSubscribe(its)) && !old(optCreate(its)) && code == caseMatchNothing ==> result != nil
+//@   ensures[unknown-datatype-refused]   !old(optSubscribe(its)) && !old(optCreate(its)) && code == caseMatchNothing ==> result != nil
+//@   ensures[creates-iff-nothing-matched] old(optCreate(its)) && code == caseMatchNothing ==> result == nil && fresh(its.datatypeDoc)
+//@   ensures[subscribes-when-matched]    old(optSubscribe(its)) && code == caseAllMatchedNotSubscribed ==> result == nil && its.datatypeDoc == old(its.datatypeDoc) && len(its.gotPushPullPack.Operations) == 0
+//@   ensures[accepted-is-ready]          result == nil ==> its.datatypeDoc != nil && mongodb.docWF(its.datatypeDoc) && its.currentCP != nil && its.initialCP != nil && its.currentCP != its.gotPushPullPack.CheckPoint
+//@   ensures[refused-creates-nothing]    result != nil ==> its.datatypeDoc == old(its.datatypeDoc)
+//@   modifies @(*PushPullHandler).createDatatype, @(*PushPullHandler).subscribeDatatype, errors.singleOrdaError.Code
